@@ -234,7 +234,8 @@ def type_name(
         return f"{_typing_name('Literal', short, typ.__module__)}[{args_str}]"
     elif not is_type_origin and is_unpack(typ):
         if (
-            typ in resolved_type_params
+            is_hashable(typ)
+            and typ in resolved_type_params
             and resolved_type_params[typ] is not typ
         ):
             return type_name(
